@@ -3,7 +3,7 @@ from __future__ import annotations
 
 import ast
 
-from ..core import (AnalysisError, FuncInfo, Project, attr_chain, const_int, enclosing, expand, guards_of, local_defs,
+from ..core import (AnalysisError, FuncInfo, Project, atoms_at, attr_chain, const_int, enclosing, expand, guards_of, local_defs,
                     term, unparse, with_helpers)
 from . import c04
 
@@ -146,85 +146,184 @@ def rule_R4(ctx, prj):
                    "token (each violating form was confirmed against the real code to mis-measure a canonical program)", floor=6)
     gb = prj.func(f"{SCU}:get_blocks")
     ctors = [c for c in gb.calls() if attr_chain(c.func) == "TokenRange" and len(c.args) == 2]
-    if ctors:
-        a, b = unparse(ctors[0].args[0]), unparse(ctors[0].args[1]).replace(" ", "")
-        if b.endswith("[1]+1") and a.endswith("[0]"):
-            ctx.ok("R4", gb.site(ctors[0]), f"get_blocks: TokenRange({a}, {unparse(ctors[0].args[1])}) - exclusive end one past the closing symbol")
-        elif b.endswith("[1]") or b.endswith("[1]+2") or b.endswith("[1]-1"):
-            ctx.viol("R4", "get_blocks/exclusive-end", gb.site(ctors[0]), f"a block's range is TokenRange({a}, {unparse(ctors[0].args[1])}); required (open index, close index + 1): "
+    if not ctors:
+        raise AnalysisError(f"{gb.disp}: construction of the blocks' TokenRange not found")
+    for c in ctors:
+        first = second = None
+        for lp in enclosing(gb, c, (ast.For, ast.ListComp, ast.GeneratorExp)):
+            tgt, it = (lp.target, lp.iter) if isinstance(lp, ast.For) else (lp.generators[0].target, lp.generators[0].iter)
+            if "get_balanced_symbol_token_indices(" not in term(gb, it):
+                continue
+            if isinstance(tgt, ast.Name):
+                first, second = f"{tgt.id}[0]", f"{tgt.id}[1]"
+            elif isinstance(tgt, ast.Tuple) and len(tgt.elts) == 2:
+                first, second = unparse(tgt.elts[0]), unparse(tgt.elts[1])
+        if first is None:
+            raise AnalysisError(f"{gb.site(c)}: the TokenRange is not built per balanced (open, close) pair")
+        a, b = term(gb, c.args[0]).replace(" ", ""), term(gb, c.args[1]).replace(" ", "")
+        sec = second.replace(" ", "")
+        if a == first.replace(" ", "") and b in (f"{sec}+1", f"1+{sec}"):
+            ctx.ok("R4", gb.site(c), f"get_blocks: TokenRange({first}, {second} + 1) - exclusive end one past the closing symbol")
+        elif b in (sec, f"{sec}+2", f"{sec}-1"):
+            ctx.viol("R4", "get_blocks/exclusive-end", gb.site(c), f"a block's range is TokenRange({unparse(c.args[0])}, {unparse(c.args[1])}); required (open index, close index + 1): "
                      f"the closing brace {'falls outside the block (span ends one token early)' if not b.endswith('+2') else 'is followed by a foreign token inside the block'}")
         else:
-            ctx.info(f"get_blocks: range construction {unparse(ctors[0])} not judged")
-    else:
-        ctx.info("get_blocks: no TokenRange construction recognised (not judged)")
-    bal = prj.func("codelimit.common.token_utils:get_balanced_symbol_token_indices")
-    ps = bal.params()
-    start_p, end_p = ps[1], ps[2]
-    ifs = [n for n in bal.walk() if isinstance(n, ast.If) and "is_symbol(" in unparse(n.test)]
-    judged = False
-    for n in ifs:
-        t = unparse(n.test)
-        body = " ".join(unparse(x) for x in n.body)
-        if f"is_symbol({start_p})" in t:
-            judged = True
-            if ".append(" in body and ".pop(" not in body:
-                ctx.ok("R4", bal.site(n), f"balanced matching: opening symbol pushes its index")
-            else:
-                ctx.viol("R4", "get_balanced_symbol_token_indices/open", bal.site(n), f"on the opening symbol the code does `{body[:60]}`; required: push the index")
-        elif f"is_symbol({end_p})" in t:
-            judged = True
-            if ".pop(" in body:
-                # the recorded pair
-                tups = [x for x in ast.walk(n) if isinstance(x, ast.Tuple) and len(x.elts) == 2 and isinstance(x.ctx, ast.Load)]
-                loopidx = None
-                for lp in [l for l in bal.walk() if isinstance(l, ast.For)]:
-                    if isinstance(lp.target, ast.Tuple):
-                        loopidx = unparse(lp.target.elts[0])
-                good = any(unparse(tp.elts[1]) == loopidx and unparse(tp.elts[0]) != loopidx for tp in tups)
-                if good:
-                    ctx.ok("R4", bal.site(n), "balanced matching: closing symbol pops and records (opening index, closing index)")
-                else:
-                    ctx.viol("R4", "get_balanced_symbol_token_indices/pair", bal.site(n), f"the recorded pair is {[unparse(tp) for tp in tups][:2]}; required (popped opening index, current index)")
-            else:
-                ctx.viol("R4", "get_balanced_symbol_token_indices/close", bal.site(n), f"on the closing symbol the code does `{body[:60]}`; required: pop the matching opening index")
-    if not judged:
-        ctx.info("get_balanced_symbol_token_indices: shape not recognised (not judged)")
-    # nested extraction flag: result appended when extract_nested or the stack is empty
-    conds = [n for n in bal.walk() if isinstance(n, ast.If) and "extract_nested" in unparse(n.test)]
-    for n in conds:
-        t = unparse(n.test).replace(" ", "")
-        if t in (f"extract_nestedorlen(block_starts)==0", "extract_nestedornotblock_starts"):
-            ctx.ok("R4", bal.site(n), "balanced matching: inner pairs recorded iff extract_nested, outermost always")
-        else:
-            ctx.viol("R4", "get_balanced_symbol_token_indices/nesting-flag", bal.site(n), f"a pair is recorded when `{unparse(n.test)}`; required `extract_nested or <stack empty>`")
-    # Python suites
+            raise AnalysisError(f"{gb.site(c)}: range construction {unparse(c)[:60]} not understood")
+    _balanced(ctx, prj, prj.func("codelimit.common.token_utils:get_balanced_symbol_token_indices"))
     py = prj.maybe_func("codelimit.languages.Python:Python.extract_blocks")
     if py is not None:
-        for cmpn in [c for c in py.walk() if isinstance(c, ast.Compare) and len(c.ops) == 1]:
-            l, r = unparse(cmpn.left), unparse(cmpn.comparators[0])
-            op = type(cmpn.ops[0])
-            if {l, r} == {"line_indentation", "header_indentation"}:
-                strict_deeper = (l == "line_indentation" and op is ast.Gt) or (l == "header_indentation" and op is ast.Lt)
-                if strict_deeper:
-                    ctx.ok("R4", py.site(cmpn), "Python suites: a line belongs to the body iff its indentation is strictly deeper than the header's")
-                elif op in (ast.GtE, ast.LtE):
-                    ctx.viol("R4", "Python.extract_blocks/indentation", py.site(cmpn), f"`{unparse(cmpn)}`: a line at the SAME indentation as the header (the next sibling "
-                             f"function, or code after the function) is swallowed into the body")
-                else:
-                    ctx.viol("R4", "Python.extract_blocks/indentation", py.site(cmpn), f"`{unparse(cmpn)}` does not select the lines indented deeper than the header")
-            if {l, r} == {"line_nr", "header_line_nr"}:
-                stop = (l == "line_nr" and op is ast.LtE) or (l == "header_line_nr" and op is ast.GtE)
-                if stop:
-                    ctx.ok("R4", py.site(cmpn), "Python suites: the scan stops at the header's own line (line_nr <= header_line_nr)")
-                elif (l == "line_nr" and op is ast.Lt) or (l == "header_line_nr" and op is ast.Gt):
-                    ctx.viol("R4", "Python.extract_blocks/header-line", py.site(cmpn), f"`{unparse(cmpn)}`: the header's own line is examined as a candidate body line; it is not indented deeper than itself, which resets the suite collected so far - the function loses its body and is not reported")
-        ends = [n for n in py.walk() if isinstance(n, ast.Assign) and unparse(n.targets[0]) == "end"]
-        for n in ends:
-            t = unparse(n.value).replace(" ", "")
-            if t.endswith("[-1])+1"):
-                ctx.ok("R4", py.site(n), "Python suites: range ends one past the suite's last token")
-            elif t.endswith("[-1])"):
-                ctx.viol("R4", "Python.extract_blocks/exclusive-end", py.site(n), f"end = {unparse(n.value)}: the suite's last token falls outside the (exclusive) range")
+        _python_suites(ctx, prj, py)
+
+
+def _is_empty_test(e, stack: str):
+    """-> True if e means `stack is empty`, False if it means `stack is non-empty`, None otherwise"""
+    t = unparse(e).replace(" ", "")
+    if t in (f"len({stack})==0", f"0==len({stack})", f"not{stack}", f"notlen({stack})", f"len({stack})<1", f"len({stack})<=0"):
+        return True
+    if t in (f"len({stack})>0", f"len({stack})!=0", stack, f"len({stack})", f"len({stack})>=1", f"bool({stack})"):
+        return False
+    return None
+
+
+def _balanced(ctx, prj, bal):
+    ps = bal.params()
+    if len(ps) < 4:
+        raise AnalysisError(f"{bal.disp}: parameters (tokens, start, end, extract_nested) expected")
+    start_p, end_p, nested_p = ps[1], ps[2], ps[3]
+    loops = [l for l in bal.walk() if isinstance(l, ast.For) and isinstance(l.target, ast.Tuple) and len(l.target.elts) == 2
+             and isinstance(l.iter, ast.Call) and attr_chain(l.iter.func) == "enumerate"]
+    if len(loops) != 1:
+        raise AnalysisError(f"{bal.disp}: expected one `for index, token in enumerate(tokens)` loop, found {len(loops)}")
+    lp = loops[0]
+    idx, tok = unparse(lp.target.elts[0]), unparse(lp.target.elts[1])
+    a_start, a_end = f"{tok}.is_symbol({start_p})", f"{tok}.is_symbol({end_p})"
+
+    def sym(node):
+        out = {}
+        for a, p in atoms_at(bal, node):
+            t = unparse(a)
+            if t == a_start:
+                out["start"] = p
+            elif t == a_end:
+                out["end"] = p
+        return out
+    calls = [c for c in ast.walk(lp) if isinstance(c, ast.Call) and isinstance(c.func, ast.Attribute) and isinstance(c.func.value, ast.Name)]
+    pushes = [c for c in calls if c.func.attr == "append" and len(c.args) == 1 and unparse(c.args[0]) == idx]
+    stacks = {c.func.value.id for c in pushes}
+    pops = [c for c in calls if c.func.attr == "pop" and c.func.value.id in stacks and (not c.args or unparse(c.args[0]) == "-1")]
+    if len(stacks) != 1:
+        raise AnalysisError(f"{bal.disp}: expected one stack of opening indices, found {sorted(stacks)}")
+    stack = next(iter(stacks))
+    for c in pushes:
+        at = sym(c)
+        if at.get("start") is True:
+            ctx.ok("R4", bal.site(c), "balanced matching: the opening symbol pushes its index")
+        elif at.get("end") is True or at.get("start") is False:
+            ctx.viol("R4", "get_balanced_symbol_token_indices/open", bal.site(c), f"the index is pushed when the token is {'the closing symbol' if at.get('end') else 'not the opening symbol'}; required: push on the opening symbol")
+        else:
+            raise AnalysisError(f"{bal.site(c)}: the condition under which the index is pushed is not understood")
+    good_pops = [c for c in pops if sym(c).get("end") is True]
+    bad_pops = [c for c in pops if sym(c).get("start") is True]
+    if bad_pops:
+        ctx.viol("R4", "get_balanced_symbol_token_indices/close", bal.site(bad_pops[0]), "the stack is popped on the opening symbol; required: pop the matching opening index on the closing symbol")
+    elif not good_pops:
+        if pops:
+            raise AnalysisError(f"{bal.site(pops[0])}: the condition under which the stack is popped is not understood")
+        ctx.viol("R4", "get_balanced_symbol_token_indices/close", bal.site(lp), "on the closing symbol nothing is popped; required: pop the matching opening index")
+    # recorded pair
+    recs = [c for c in calls if c.func.attr == "append" and c.func.value.id != stack and len(c.args) == 1]
+    pairs = []
+    for c in recs:
+        e = c.args[0]
+        if isinstance(e, ast.Tuple) and len(e.elts) == 2:
+            pairs.append((c, e))
+    if not pairs:
+        raise AnalysisError(f"{bal.disp}: no recorded (opening, closing) pair found")
+    for c, e in pairs:
+        a, b = unparse(expand(bal, e.elts[0], skip=(stack,))), unparse(expand(bal, e.elts[1], skip=(stack,)))
+        popt = (f"{stack}.pop()", f"{stack}.pop(-1)")
+        if a in popt and b == idx:
+            ctx.ok("R4", bal.site(c), "balanced matching: the closing symbol pops and records (opening index, closing index)")
+        elif b in popt and a == idx:
+            ctx.viol("R4", "get_balanced_symbol_token_indices/pair", bal.site(c), f"the recorded pair is ({unparse(e.elts[0])}, {unparse(e.elts[1])}) = (closing index, opening index); required (popped opening index, current index)")
+        elif a == idx and b == idx or a in popt and b in popt:
+            ctx.viol("R4", "get_balanced_symbol_token_indices/pair", bal.site(c), f"the recorded pair is ({a}, {b}); required (popped opening index, current index)")
+        else:
+            raise AnalysisError(f"{bal.site(c)}: recorded pair ({a}, {b}) not understood")
+        # nesting flag: among the guards of the recording, the one that mentions the flag
+        flagged = [g for g in guards_of(bal, c) if nested_p in {n.id for n in ast.walk(expand(bal, g.test, skip=(stack,))) if isinstance(n, ast.Name)}]
+        if not flagged:
+            ctx.viol("R4", "get_balanced_symbol_token_indices/nesting-flag", bal.site(c), f"the pair is recorded whatever `{nested_p}` is; required `{nested_p} or <stack empty>`: inner pairs only when nested extraction is asked for")
+            continue
+        if len(flagged) > 1:
+            raise AnalysisError(f"{bal.site(c)}: several conditions mention `{nested_p}`")
+        g = flagged[0]
+        test = expand(bal, g.test, skip=(stack,))
+        pol = g.polarity
+        ok = None
+        if isinstance(test, ast.BoolOp) and len(test.values) == 2:
+            names = [isinstance(v, ast.Name) and v.id == nested_p for v in test.values]
+            other = test.values[1] if names[0] else test.values[0] if names[1] else None
+            if other is not None and pol:
+                emp = _is_empty_test(other, stack)
+                if isinstance(test.op, ast.Or) and emp is True:
+                    ok = True
+                elif isinstance(test.op, ast.And) or emp is False:
+                    ok = False
+        elif isinstance(test, ast.Name) and pol:
+            ok = False
+        if ok is True:
+            ctx.ok("R4", bal.site(c), "balanced matching: inner pairs recorded iff extract_nested, outermost always")
+        elif ok is False:
+            ctx.viol("R4", "get_balanced_symbol_token_indices/nesting-flag", bal.site(c), f"a pair is recorded when `{unparse(test)}`; required `{nested_p} or <stack empty>`")
+        else:
+            raise AnalysisError(f"{bal.site(c)}: recording condition `{unparse(test)}` (polarity {pol}) not understood")
+
+
+def _python_suites(ctx, prj, py):
+    """comparison operators of the indentation scan, identified by what the operands ARE (terms), not by their names"""
+    def kind(e):
+        t = term(py, e)
+        if t.endswith(".location.column") or t.endswith(".column"):
+            return "HDR_COL" if ".start]" in t else "LINE_COL"
+        if t.endswith(".location.line") or t.endswith(".line"):
+            return "HDR_LINE" if ".end]" in t else "LINE_LINE"
+        return None
+    flipop = {ast.Lt: ast.Gt, ast.Gt: ast.Lt, ast.LtE: ast.GtE, ast.GtE: ast.LtE}
+    n_ind = n_line = 0
+    for cmpn in [c for c in py.walk() if isinstance(c, ast.Compare) and len(c.ops) == 1]:
+        op = type(cmpn.ops[0])
+        if op not in flipop:
+            continue
+        kl, kr = kind(cmpn.left), kind(cmpn.comparators[0])
+        if (kl, kr) in (("HDR_COL", "LINE_COL"), ("HDR_LINE", "LINE_LINE")):
+            kl, kr, op = kr, kl, flipop[op]
+        if (kl, kr) == ("LINE_COL", "HDR_COL"):
+            n_ind += 1
+            if op in (ast.Gt, ast.LtE):
+                ctx.ok("R4", py.site(cmpn), "Python suites: a line belongs to the body iff its indentation is strictly deeper than the header's")
+            else:
+                ctx.viol("R4", "Python.extract_blocks/indentation", py.site(cmpn), f"`{unparse(cmpn)}`: a line at the SAME indentation as the header (the next sibling "
+                         f"function, or code after the function) is swallowed into the body")
+        elif (kl, kr) == ("LINE_LINE", "HDR_LINE"):
+            n_line += 1
+            if op in (ast.LtE, ast.Gt):
+                ctx.ok("R4", py.site(cmpn), "Python suites: the scan stops at the header's own line (line <= header line)")
+            else:
+                ctx.viol("R4", "Python.extract_blocks/header-line", py.site(cmpn), f"`{unparse(cmpn)}`: the header's own line is examined as a candidate body line; it is not indented deeper than itself, which resets the suite collected so far - the function loses its body and is not reported")
+    if not n_ind or not n_line:
+        raise AnalysisError(f"{py.disp}: the comparisons of a line's indentation / line number with the header's were not found")
+    ctors = [c for c in py.calls() if attr_chain(c.func) == "TokenRange" and len(c.args) == 2]
+    if not ctors:
+        raise AnalysisError(f"{py.disp}: construction of the suite's TokenRange not found")
+    for c in ctors:
+        t = term(py, c.args[1]).replace(" ", "")
+        if ".index(" in t and t.endswith(")+1"):
+            ctx.ok("R4", py.site(c), "Python suites: range ends one past the suite's last token")
+        elif ".index(" in t and t.endswith(")"):
+            ctx.viol("R4", "Python.extract_blocks/exclusive-end", py.site(c), f"end = {term(py, c.args[1])[:60]}: the suite's last token falls outside the (exclusive) range")
+        else:
+            raise AnalysisError(f"{py.site(c)}: end of the suite's range `{t[:60]}` not understood")
 
 
 def run(ctx, prj: Project):
